@@ -147,7 +147,7 @@ def get_case(desc):
     if desc["kind"] == "literal":
         return desc["case"]
     return mapgen.case_from_seed(desc["seed"], desc["i"], allow_autogen=desc["i"] % 2 == 1, allow_renames=desc["i"] % 3 == 0,
-                                 allow_bound=desc["i"] % 5 == 0, allow_int_arrays=desc["i"] % 4 == 3)
+                                 allow_bound=desc["i"] % 5 == 0, allow_int_arrays=desc["i"] % 4 == 3, allow_picker=desc["i"] % 3 == 1)
 
 
 def storage_arg(case, st, i):
